@@ -76,7 +76,11 @@ func (w *Worker) fmtValue(st *State, t types.Type, v Value, verb byte, depth int
 			}
 			return w.fmtValue(st, kinds.typ(k), x.P[k], verb, depth)
 		}
-		// symbolic tag: merge the renderings that can be merged, otherwise build a Txt ite
+		// symbolic tag: if the path constraint leaves only one kind, it is that kind
+		if one := w.resolveUnion(st, x); one != x {
+			return w.fmtValue(st, t, one, verb, depth)
+		}
+		// otherwise build a Txt ite over the feasible renderings
 		ks := x.kindsSorted()
 		var acc *Term
 		for i := len(ks) - 1; i >= 0; i-- {
@@ -270,6 +274,7 @@ func (w *Worker) callSync(st *State, fn *ssa.Function, args []Value) Value {
 }
 
 func (w *Worker) fmtArg(st *State, a *Union, verb byte) StrV {
+	a = w.resolveUnion(st, a)
 	if k, ok := a.constKind(); ok && k != KNil && verb != 'T' && verb != 'd' {
 		t := kinds.typ(k)
 		if !isSynthErr(t) {
@@ -660,4 +665,30 @@ func declareUF(name, decl string) {
 		ufDecls[name] = decl
 	}
 	ufMu.Unlock()
+}
+
+// resolveUnion: a union whose tag is symbolic but determined by the path constraint is
+// replaced by its constant-tag form.
+func (w *Worker) resolveUnion(st *State, u *Union) *Union {
+	if _, ok := u.constKind(); ok {
+		return u
+	}
+	var feas []int
+	cands := append([]int{KNil}, u.kindsSorted()...)
+	for _, k := range cands {
+		if can, _ := w.branch(st, u.isKind(k)); can {
+			feas = append(feas, k)
+			if len(feas) > 1 {
+				return u
+			}
+		}
+	}
+	if len(feas) != 1 {
+		return u
+	}
+	k := feas[0]
+	if k == KNil {
+		return nilUnion()
+	}
+	return &Union{Tag: mkBV(uint64(k), 8), P: map[int]Value{k: u.P[k]}}
 }
